@@ -58,6 +58,46 @@ package writecache
 //@   callee (*writecache.counters).Delete
 //@   requires [removed_before_unaccounted] fsTreeRemoved()
 
+// ---- C17 (flush scheduler, safety half of "every cached object gets flushed"): the
+// scheduler marks an address in flushObjs before it batches it, and skips marked addresses
+// on every later tick; only the worker that receives an address (or the scheduler's own
+// error path) removes the mark. A mark that is set but neither handed to a worker nor
+// removed is therefore never flushed again. Per tick: pending(0) counts the addresses that
+// are marked by the scheduler and not yet handed over; between ticks it must be 0. The
+// batch b is always the window of sortedAddrs that ends right before the first address
+// not yet batched, so the batches handed to the workers tile sortedAddrs without a gap or
+// a repetition.
+//@ ghost field pending(x int) int
+//@ callrule scheduler_marks_address in (*cache).flushScheduler
+//@   property C17
+//@   callee (*sync.Map).Store
+//@   assigns pending
+//@   defines pending(0) == old(pending(0)) + 1
+//@ callrule scheduler_unmarks_address in (*cache).flushScheduler
+//@   property C17
+//@   callee (*sync.Map).Delete
+//@   assigns pending
+//@   defines pending(0) == old(pending(0)) - 1
+//@ callrule scheduler_hands_batch_to_worker in (*cache).flushScheduler
+//@   property C17
+//@   callee chansend(cache.flushCh)
+//@   assigns pending
+//@   requires [batch_is_the_window_of_marked_addresses] samearray(a0, sortedAddrs) && sliceoff(a0, sortedAddrs) + len(a0) == i + ite(handledAddr, 1, 0)
+//@   defines pending(0) == old(pending(0)) - len(a0)
+//@ func (*cache).flushScheduler
+//@   property C17
+//@   mode bv
+//@   valid pending(0) == 0
+//@   loop 1 invariant [no_mark_left_behind_by_a_tick] pending(0) == 0
+//@   loop 2 invariant pending(0) == 0
+//@   loop 3 invariant pending(0) == 0
+//@   loop 4 invariant -1 <= rangeindex && rangeindex < len(sortedAddrs)
+//@   loop 4 invariant [batch_window_ends_at_the_next_address] samearray(b, sortedAddrs) && sliceoff(b, sortedAddrs) + len(b) == rangeindex + 1 && pending(0) == len(b)
+//@   loop 4 invariant [last_address_flushes_the_batch] rangeindex + 1 == len(sortedAddrs) ==> len(b) == 0
+//@   loop 5 invariant 0 <= i && i < len(sortedAddrs) && samearray(b, sortedAddrs) && sliceoff(b, sortedAddrs) + len(b) == i + ite(handledAddr, 1, 0) && pending(0) == len(b) + ite(handledAddr, 0, 1)
+//@   loop 5 invariant handledAddr && !flushB ==> i + 1 < len(sortedAddrs)
+//@   loop 6 invariant pending(0) + rangeindex + 1 == len(b) + ite(handledAddr, 0, 1)
+
 // ---- C14 (write-cache layer): the cache's own store is written and the main storage is
 // fed only on a path where the cache's mode was found writable. put is a helper without its own check: it demands it from every caller; the calls
 // of delete/flushSingle/flushBatch in Put, Delete and the flush workers are checked in place.
